@@ -175,7 +175,8 @@ report_cvs_log(struct report_context *r)
 			continue;
 
 		path = arena_sprintf(&s, "%s/%s", tmpdir, paths[i].filename);
-		if (stat(path, &st) == 0 && st.st_size == 0)
+		/* A log that was never written is as good as an empty one. */
+		if (stat(path, &st) == -1 || st.st_size == 0)
 			continue;
 		if (ncvs++ > 0)
 			buffer_putc(r->out, '\n');
